@@ -67,8 +67,8 @@ def cls_step(st):
 def axis_class(n, s, e, st):
     """finite partition of one axis' arguments: which of start/stop/step are given x sign x in/out of range x
     step sign x empty/non-empty expected result"""
-    exp = py_axis(n, s, e, st)
-    return "start_%s.stop_%s.step_%s.%s" % (cls_start(s, n), cls_stop(e, n), cls_step(st), "empty" if not exp else "nonempty")
+    nexp = len(range(*slice(s, e, st).indices(n)))
+    return "start_%s.stop_%s.step_%s.%s" % (cls_start(s, n), cls_stop(e, n), cls_step(st), "empty" if not nexp else "nonempty")
 
 
 def tok3(part):
@@ -154,13 +154,14 @@ def random_part(rng, code, n, margin=2):
     return ("R", s, e, st)
 
 
-def assign_extents(rng, codes, maxdim=3, maxext=4, dim=None):
+def assign_extents(rng, codes, maxdim=3, maxext=4, dim=None, shape=None):
     """choose a source shape for a type pattern; returns (shape, per-part extent or None for the ellipsis)"""
     k = sum(1 for c in codes if c != "E")
     has_e = "E" in codes
     if dim is None:
         dim = rng.randint(max(k, 1), max(k, maxdim)) if has_e else k
-    shape = [rng.randint(1, maxext) for _ in range(dim)]
+    if shape is None:
+        shape = [rng.randint(1, maxext) for _ in range(dim)]
     ext = []
     pos = 0
     for c in codes:
@@ -171,3 +172,22 @@ def assign_extents(rng, codes, maxdim=3, maxext=4, dim=None):
             ext.append(shape[pos])
             pos += 1
     return shape, ext
+
+
+def ellipsis_class(parts, dim):
+    """what the ellipsis of a multi-axis index stands for"""
+    pos = [i for i, p in enumerate(parts) if p[0] == "E"]
+    if not pos:
+        return "no_ellipsis"
+    k = len(parts) - 1
+    if dim > k:
+        return "ellipsis_some_axes"
+    i = pos[0]
+    if i == len(parts) - 1:
+        return "ellipsis_zero_axes_trailing"
+    return "ellipsis_zero_axes_leading" if i == 0 else "ellipsis_zero_axes_middle"
+
+
+def sig_to_code(part):
+    """range part -> the 3-tuple type code with the same None-signature (2-tuples share the class of '..n')"""
+    return "".join("n" if x is None else "i" for x in part[1:4])
